@@ -2,7 +2,7 @@
 import e2e
 from props import _sim
 
-GEN_FILES = ["Simulate.v", "RandomChoiceGen.v"]
+GEN_FILES = ["Simulate.v", "RandomChoiceGen.v", "WeightFunc.v"]
 TRUSTED = e2e.TRUSTED
 ASSUMPTIONS = e2e.ASSUMPTIONS + ["the draw of a stochastic state is judged only by 'has positive probability in the selected row' (the distribution is C04)"]
 from props import C04 as _c04
